@@ -7,7 +7,7 @@ Layout of objects: 1 Catalog, 2 Pages, 3 Font (Helvetica, WinAnsi), then for eac
 and its image XObjects (an image with a "share_key" already seen re-uses the earlier object); Info last.
 """
 import io
-import struct  # noqa: F401  (allowed dependency; kept for callers that patch headers)
+import struct
 import zlib
 
 __all__ = ["write_pdf", "xref_check", "selfcheck", "encrypt_pdf", "patch_aes", "ALGORITHMS"]
@@ -274,6 +274,129 @@ def xref_check(data: bytes) -> bool:
 # ----------------------------------------------------------------------------------------------
 
 _AES_PATCHED = False
+_USE_FAST_AES = True  # set False before the first patch_aes() call to route every block through refaes directly
+aes_backend: dict = {"name": None}
+
+
+def _build_fast_aes(refaes):
+    """Table-driven AES built *from refaes' own primitives* (SBOX, INV_SBOX, gmul, expand_key, inv_mix_columns).
+
+    refaes does ~1100 blocks/s, which makes the R6 (AES-256) password hash take minutes; this is ~30x faster.
+    The result is validated against refaes.{ecb,cbc}_{encrypt,decrypt} for all key sizes before use;
+    on any mismatch None is returned and the plain refaes functions are used instead.
+    """
+    S, Si, g = list(refaes.SBOX), list(refaes.INV_SBOX), refaes.gmul
+
+    def word(b0, b1, b2, b3):
+        return (b0 << 24) | (b1 << 16) | (b2 << 8) | b3
+
+    T0 = [word(g(2, s), s, s, g(3, s)) for s in S]
+    T1 = [word(g(3, s), g(2, s), s, s) for s in S]
+    T2 = [word(s, g(3, s), g(2, s), s) for s in S]
+    T3 = [word(s, s, g(3, s), g(2, s)) for s in S]
+    D0 = [word(g(14, s), g(9, s), g(13, s), g(11, s)) for s in Si]
+    D1 = [word(g(11, s), g(14, s), g(9, s), g(13, s)) for s in Si]
+    D2 = [word(g(13, s), g(11, s), g(14, s), g(9, s)) for s in Si]
+    D3 = [word(g(9, s), g(13, s), g(11, s), g(14, s)) for s in Si]
+    unpack, pack = struct.Struct(">4I").unpack, struct.Struct(">4I").pack
+
+    class Fast:
+        def __init__(self, key: bytes) -> None:
+            rks = refaes.expand_key(key)
+            self.nr = len(rks) - 1
+            self.ek = [unpack(bytes(rk)) for rk in rks]
+            self.dk = [None] + [unpack(bytes(refaes.inv_mix_columns(list(rk)))) for rk in rks[1:-1]]
+
+        def enc(self, a, b, c, d):
+            ek, nr = self.ek, self.nr
+            k = ek[0]
+            a ^= k[0]; b ^= k[1]; c ^= k[2]; d ^= k[3]  # noqa: E702
+            for r in range(1, nr):
+                k = ek[r]
+                a, b, c, d = (
+                    T0[a >> 24] ^ T1[(b >> 16) & 255] ^ T2[(c >> 8) & 255] ^ T3[d & 255] ^ k[0],
+                    T0[b >> 24] ^ T1[(c >> 16) & 255] ^ T2[(d >> 8) & 255] ^ T3[a & 255] ^ k[1],
+                    T0[c >> 24] ^ T1[(d >> 16) & 255] ^ T2[(a >> 8) & 255] ^ T3[b & 255] ^ k[2],
+                    T0[d >> 24] ^ T1[(a >> 16) & 255] ^ T2[(b >> 8) & 255] ^ T3[c & 255] ^ k[3],
+                )
+            k = ek[nr]
+            return (
+                word(S[a >> 24], S[(b >> 16) & 255], S[(c >> 8) & 255], S[d & 255]) ^ k[0],
+                word(S[b >> 24], S[(c >> 16) & 255], S[(d >> 8) & 255], S[a & 255]) ^ k[1],
+                word(S[c >> 24], S[(d >> 16) & 255], S[(a >> 8) & 255], S[b & 255]) ^ k[2],
+                word(S[d >> 24], S[(a >> 16) & 255], S[(b >> 8) & 255], S[c & 255]) ^ k[3],
+            )
+
+        def dec(self, a, b, c, d):
+            ek, dk, nr = self.ek, self.dk, self.nr
+            k = ek[nr]
+            a ^= k[0]; b ^= k[1]; c ^= k[2]; d ^= k[3]  # noqa: E702
+            for r in range(nr - 1, 0, -1):
+                k = dk[r]
+                a, b, c, d = (
+                    D0[a >> 24] ^ D1[(d >> 16) & 255] ^ D2[(c >> 8) & 255] ^ D3[b & 255] ^ k[0],
+                    D0[b >> 24] ^ D1[(a >> 16) & 255] ^ D2[(d >> 8) & 255] ^ D3[c & 255] ^ k[1],
+                    D0[c >> 24] ^ D1[(b >> 16) & 255] ^ D2[(a >> 8) & 255] ^ D3[d & 255] ^ k[2],
+                    D0[d >> 24] ^ D1[(c >> 16) & 255] ^ D2[(b >> 8) & 255] ^ D3[a & 255] ^ k[3],
+                )
+            k = ek[0]
+            return (
+                word(Si[a >> 24], Si[(d >> 16) & 255], Si[(c >> 8) & 255], Si[b & 255]) ^ k[0],
+                word(Si[b >> 24], Si[(a >> 16) & 255], Si[(d >> 8) & 255], Si[c & 255]) ^ k[1],
+                word(Si[c >> 24], Si[(b >> 16) & 255], Si[(a >> 8) & 255], Si[d & 255]) ^ k[2],
+                word(Si[d >> 24], Si[(c >> 16) & 255], Si[(b >> 8) & 255], Si[a & 255]) ^ k[3],
+            )
+
+        @staticmethod
+        def _aligned(data: bytes) -> None:
+            if len(data) % 16:
+                raise ValueError("data must be block-aligned")
+
+        def ecb_encrypt(self, data: bytes) -> bytes:
+            self._aligned(data)
+            return b"".join(pack(*self.enc(*unpack(data[i:i + 16]))) for i in range(0, len(data), 16))
+
+        def ecb_decrypt(self, data: bytes) -> bytes:
+            self._aligned(data)
+            return b"".join(pack(*self.dec(*unpack(data[i:i + 16]))) for i in range(0, len(data), 16))
+
+        def cbc_encrypt(self, iv: bytes, data: bytes) -> bytes:
+            self._aligned(data)
+            p = unpack(iv)
+            out = []
+            for i in range(0, len(data), 16):
+                m = unpack(data[i:i + 16])
+                p = self.enc(m[0] ^ p[0], m[1] ^ p[1], m[2] ^ p[2], m[3] ^ p[3])
+                out.append(pack(*p))
+            return b"".join(out)
+
+        def cbc_decrypt(self, iv: bytes, data: bytes) -> bytes:
+            self._aligned(data)
+            p = unpack(iv)
+            out = []
+            for i in range(0, len(data), 16):
+                cblk = unpack(data[i:i + 16])
+                m = self.dec(*cblk)
+                out.append(pack(m[0] ^ p[0], m[1] ^ p[1], m[2] ^ p[2], m[3] ^ p[3]))
+                p = cblk
+            return b"".join(out)
+
+    try:
+        for klen in (16, 24, 32):
+            key = bytes((37 * i + 11 * klen) & 255 for i in range(klen))
+            iv = bytes((201 * i + 7) & 255 for i in range(16))
+            msg = bytes((i * i * 13 + 5 * i + klen) & 255 for i in range(80))
+            f = Fast(key)
+            ce, cc = bytes(refaes.ecb_encrypt(key, msg)), bytes(refaes.cbc_encrypt(key, iv, msg))
+            if f.ecb_encrypt(msg) != ce or f.cbc_encrypt(iv, msg) != cc:
+                return None
+            if f.ecb_decrypt(ce) != msg or f.cbc_decrypt(iv, cc) != msg:
+                return None
+            if f.ecb_decrypt(msg) != bytes(refaes.ecb_decrypt(key, msg)) or f.cbc_decrypt(iv, msg) != bytes(refaes.cbc_decrypt(key, iv, msg)):
+                return None
+    except Exception:
+        return None
+    return Fast
 
 
 def patch_aes() -> None:
@@ -294,16 +417,27 @@ def patch_aes() -> None:
 
     from . import refaes
 
+    fast = _build_fast_aes(refaes) if _USE_FAST_AES else None
+    aes_backend["name"] = "refaes+tables" if fast else "refaes"
+
     def aes_ecb_encrypt(key: bytes, data: bytes) -> bytes:
+        if fast:
+            return fast(bytes(key)).ecb_encrypt(bytes(data))
         return bytes(refaes.ecb_encrypt(bytes(key), bytes(data)))
 
     def aes_ecb_decrypt(key: bytes, data: bytes) -> bytes:
+        if fast:
+            return fast(bytes(key)).ecb_decrypt(bytes(data))
         return bytes(refaes.ecb_decrypt(bytes(key), bytes(data)))
 
     def aes_cbc_encrypt(key: bytes, iv: bytes, data: bytes) -> bytes:
+        if fast:
+            return fast(bytes(key)).cbc_encrypt(bytes(iv), bytes(data))
         return bytes(refaes.cbc_encrypt(bytes(key), bytes(iv), bytes(data)))
 
     def aes_cbc_decrypt(key: bytes, iv: bytes, data: bytes) -> bytes:
+        if fast:
+            return fast(bytes(key)).cbc_decrypt(bytes(iv), bytes(data))
         return bytes(refaes.cbc_decrypt(bytes(key), bytes(iv), bytes(data)))
 
     class CryptAES(CryptBase):
